@@ -27,6 +27,7 @@ CODES = {
     1: "model does not predict the reconcile",
     10: "two settings of one namespace that overlap on a node are both valid",
     11: "a setting without a reference is not in error",
+    14: "a setting that was not valid became valid in a reconcile that could not read the lists, or although the rule makes it an error",
     12: "a setting with an unusable selector is not in error",
     13: "a well-formed setting that overlaps no other is not valid",
     15: "a created pod carries a setting that is not a valid setting selecting its node",
@@ -68,6 +69,12 @@ def gen_case(rng, tier, stats):
     cases = []
     for order in orders:
         ops = []
+        if rng.random() < 0.3:
+            # a first pass during which the API server fails a List of the settings or of the nodes
+            for nm in order:
+                kind = rng.choice(["ExtendedDaemonsetSetting", "ExtendedDaemonsetSetting", "Node"])
+                ops.append(K.reconcile("setting", NS, nm, {"list_fail": [kind]}))
+                wprop.bump(stats, "reconcile with a failing List", kind)
         for _ in range(2):
             for nm in order:
                 ops.append(K.reconcile("setting", NS, nm))
@@ -100,7 +107,9 @@ def encode(c, r):
             alls = [P.g_setting(s) for s in worldenc.by_kind(st["pre"], "ExtendedDaemonsetSetting")]
             nodes = [P.g_node(n, "", "", []) for n in worldenc.by_kind(st["pre"], "Node")]
             pst = (post or {}).get("status") or {}
-            lit = gC("St", gO(inst, P.g_setting), gL(alls), gL(nodes), gN(P.SET_STATUS.get(pst.get("status", ""), 99)),
+            lf = (op.get("faults") or {}).get("list_fail") or []
+            lit = gC("St", gO(inst, P.g_setting), gL(alls), gL(nodes), gB("ExtendedDaemonsetSetting" in lf), gB("Node" in lf),
+                     gN(P.SET_STATUS.get(pst.get("status", ""), 99)),
                      gB(bool(pst.get("error"))), gB(bool(st.get("err"))), gB(bool(st.get("panic"))))
             lits.append(P.finish(lit)[0])
             continue
